@@ -48,6 +48,7 @@ import (
 	"github.com/tochemey/goakt/v4/internal/pointer"
 	"github.com/tochemey/goakt/v4/internal/strconvx"
 	"github.com/tochemey/goakt/v4/internal/types"
+	"github.com/tochemey/goakt/v4/internal/verifhook"
 	"github.com/tochemey/goakt/v4/remote"
 	"github.com/tochemey/goakt/v4/supervisor"
 )
@@ -809,9 +810,13 @@ func (x *actorSystem) runSpawnActivation(ctx context.Context, key string, fn fun
 
 	retried := false
 	for {
+		verifhook.At("spawn.sf", &x.spawnActivation, 0, 0)
 		ch := x.spawnActivation.DoChan(key, func() (any, error) {
+			verifhook.At("spawn.fn", &x.spawnActivation, 0, 0)
+			defer verifhook.At("spawn.fn.end", &x.spawnActivation, 0, 0)
 			return fn()
 		})
+		verifhook.At("spawn.wait", &x.spawnActivation, 0, 0)
 
 		select {
 		case <-ctx.Done():
